@@ -2,9 +2,9 @@
 use crate::core::f64_to_bits;
 use crate::rng::Rng;
 
-pub const CLASSES: [&str; 12] = [
+pub const CLASSES: [&str; 13] = [
     "uniform", "lattice", "allequal", "twovalued", "duppoints", "euclid", "geomline", "blobs", "sorted",
-    "revsorted", "magnitude", "negmixed",
+    "revsorted", "magnitude", "negmixed", "colmajor",
 ];
 
 pub fn tri(n: usize) -> usize {
@@ -38,16 +38,18 @@ pub fn matrix(rng: &mut Rng, class: &str, n: usize) -> Vec<f64> {
         "uniform" => (0..len).map(|_| rng.unit() * 100.0 + 0.001).collect(),
         "lattice" => {
             let k = rng.range(1, 4) as u64;
-            let unit = *rng.pick(&[1.0, 0.5, 0.25, 3.0]);
+            // dyadic units keep every update exact; 0.1 / 1.155 / 1/3 make tied updates ROUND (inversions
+            // under rounding, irreducible average/Ward updates)
+            let unit = *rng.pick(&[1.0, 0.5, 0.25, 3.0, 0.1, 1.155, 1.0 / 3.0]);
             (0..len).map(|_| (1 + rng.below(k)) as f64 * unit).collect()
         }
         "allequal" => {
-            let v = *rng.pick(&[0.0, 1.0, 2.5, 7.0]);
+            let v = *rng.pick(&[0.0, 1.0, 2.5, 7.0, 1.155, 0.1, 1.16, 1.0 / 3.0, 2.7]);
             vec![v; len]
         }
         "twovalued" => {
             let a = 1.0;
-            let b = *rng.pick(&[2.0, 1.5, 0.0]);
+            let b = *rng.pick(&[2.0, 1.5, 0.0, 1.1, 1.155]);
             (0..len).map(|_| if rng.below(2) == 0 { a } else { b }).collect()
         }
         "duppoints" => {
@@ -64,7 +66,7 @@ pub fn matrix(rng: &mut Rng, class: &str, n: usize) -> Vec<f64> {
         }
         "geomline" => {
             // collinear geometric progression: long nearest-neighbour chains
-            let ratio: f64 = *rng.pick(&[1.1, 1.3, 2.0]);
+            let ratio: f64 = *rng.pick(&[1.1, 1.3, 2.0, 1.05, 1.6]);
             // keep coordinates below 1e100 so squares stay finite
             let max_exp = (100.0 * std::f64::consts::LN_10 / ratio.ln()).floor() as usize;
             let r = if n > max_exp { (1e100f64).powf(1.0 / n as f64) } else { ratio };
@@ -95,6 +97,19 @@ pub fn matrix(rng: &mut Rng, class: &str, n: usize) -> Vec<f64> {
             v.sort_by(|a, b| a.partial_cmp(b).unwrap());
             if class == "revsorted" {
                 v.reverse();
+            }
+            v
+        }
+        "colmajor" => {
+            // distinct entries sorted in (reverse) column-major order: every merge invalidates many
+            // nearest-neighbour candidates (worst case for lazy repair strategies)
+            let rev = rng.below(2) == 0;
+            let mut v = Vec::with_capacity(len);
+            for i in 0..n {
+                for j in i + 1..n {
+                    let x = if rev { 1 + (n - j) * n + (n - i) } else { 1 + j * n + i };
+                    v.push(x as f64);
+                }
             }
             v
         }
